@@ -80,11 +80,6 @@ def observe_render(ex, res, tag_handlers):
     return obs
 
 
-def render_signature(case):
-    """Narrow structural description of a rendering case (for KNOWN_FINDINGS)."""
-    return {'clause': case['clause'], 'negotiated': case['negotiated'], 'kind': case['kind']}
-
-
 def check_render(ctx, cell, fields, asgi, leg):
     """Replay one cell of TLC's rendering table with concrete field values.  Returns the observation."""
     acc, out = cell['acc'], cell['out']
@@ -116,14 +111,14 @@ def compare_render(ctx, cell, obs, case):
     """Compare an observation with TLC's expected rendering; the same clauses as ErrorRenderTrace."""
     out = cell['out']
     ex = case.pop('ex')
-    sig_base = {'negotiated': mt_text(out['ctype']), 'kind': out['kind']}
+    sig_base = {'observed_status': obs['status'], 'observed_ctype': mt_text(obs['ctype'])}
     clause = None
     if obs['status'] != out['status']:
         clause, what = 'P4:render-status', 'status %r, the error carries %r' % (obs['status'], out['status'])
     elif not obs['vary']:
         clause, what = 'P4:vary', 'Vary: Accept missing'
     elif out['kind'] != 'none' and obs['kind'] != out['kind']:
-        clause, what = 'P4:negotiation', 'body representation %r, negotiated %r (%s)' % (obs['kind'], out['kind'], sig_base['negotiated'])
+        clause, what = 'P4:negotiation', 'body representation %r, negotiated %r (%s)' % (obs['kind'], out['kind'], mt_text(out['ctype']))
     elif out['kind'] != 'none' and set(obs['fields']) != set(out['fields']) and not obs.get('flat'):
         clause, what = 'P4:fields', 'document fields %r, the error has %r' % (obs['fields'], sorted(out['fields']))
     elif out['kind'] != 'none':
@@ -164,7 +159,8 @@ def random_accept(rng):
         return {'absent': False, 'malformed': True, 'raw': raw, 'msfx': sfx, 'ranges': []}
     types = [('application', 'json'), ('text', 'xml'), ('application', 'xml'), ('*', '*'), ('text', '*'), ('application', '*'),
              ('application', 'x-verif-tag'), ('image', 'png'), ('text', 'html'), ('application', 'vnd.verif+json'),
-             ('application', 'vnd.verif+xml'), ('application', 'x-www-form-urlencoded'), ('*', 'json')]
+             ('application', 'vnd.verif+xml'), ('application', 'x-www-form-urlencoded'), ('*', 'json'), ('multipart', 'form-data'),
+             ('multipart', '*')]
     rs = []
     for _ in range(rng.randint(1, 4)):
         t, s = rng.choice(types)
@@ -279,8 +275,8 @@ def run(ctx):
             ctx.detail(clause, c, 'rendering trace: %s' % v)
         else:
             ctx.violation(clause, dict(c, trace=t), 'rendering rejected by ErrorRenderTrace: %s' % v,
-                          signature={'clause': clause, 'negotiated': mt_text(t['obs']['ctype']) if clause == 'P4:render-status' else '?',
-                                     'kind': '?'})
+                          signature={'observed_status': t['obs']['status'], 'observed_ctype': mt_text(t['obs']['ctype']),
+                                     'clause': clause})
     ctx.progress('leg B (Accept headers): %d distinct renderings judged' % len(uniq))
     if seen_other:
         ctx.extra['sibling_clauses_seen'] = seen_other
